@@ -787,6 +787,13 @@ struct StrSys {
     {
         std::vector<long> v{0, 1, 2, long(s), long(s) + 1};
         if (s >= 2) { v.push_back(long(s) - 1); }
+        // counts whose low 8 / 16 bits are small: a clamp that narrows the count to the internal size type BEFORE taking
+        // the minimum sees count mod 256 / 65536 (added after seeded breakage c04_clamp_count_narrowed)
+        for (long base : {256L, 65536L}) {
+            v.push_back(base);
+            v.push_back(base + 1);
+            if (s >= 2) { v.push_back(base + long(s) - 1); }
+        }
         std::sort(v.begin(), v.end());
         v.erase(std::unique(v.begin(), v.end()), v.end());
         v.push_back(-1);
